@@ -23,7 +23,7 @@ How to build and test offline (do exactly this; never run go with -mod=mod insid
   export GOTOOLCHAIN=local GOPROXY=off GOSUMDB=off GOFLAGS=
   go1.26 build -modfile=/tmp/seed_{pid}_mod/go.mod ./...
   go1.26 test -modfile=/tmp/seed_{pid}_mod/go.mod -vet=off -count=1 ./pkg/<affected packages>/...     (existing tests must pass WITH your change; run at least every package you touched and its direct dependants; running ./... takes a few minutes and is best)
-The machine is shared and busy: builds can take a minute or two.
+The machine is shared and busy: builds can take a minute or two. Other agents work in sibling directories: any temporary file you create must live under /tmp/seed_{pid}_tmp/ (create it), never directly in /tmp, and never delete anything in /tmp that you did not create.
 
 Deliverables, left in the worktree when you finish (do not commit):
   - your source change applied in the working tree (only non-test files modified),
